@@ -11,7 +11,7 @@
    What is false of the code and proved false of the model: with several locations per target sharing an inner
    location the ledger exceeds the capacity (C10_shared_inner_refuted = known finding). *)
 From Coq Require Import List Bool ZArith NArith.
-From SF Require Import Base.Str Hardware.Model Hardware.Proofs Sched.Model Sched.Proofs Sched.History Sched.Slots Sched.Stacked Sched.StackedHist Sched.Witness Sched.Examples.
+From SF Require Import Base.Str Hardware.Model Hardware.Proofs Sched.Model Sched.Proofs Sched.History Sched.Slots Sched.Stacked Sched.StackedHist Sched.StackedSlots Sched.Witness Sched.Examples.
 Import ListNotations.
 Local Open Scope string_scope. Local Open Scope list_scope. Local Open Scope Z_scope.
 
@@ -132,6 +132,16 @@ Theorem C10_capacity_stacked : forall locs,
   (forall x, reserved2 st R (lv_name l) x <= mu cap x).
 Proof. exact capacity_stacked. Qed.
 
+(* slot part for chains: on every level without declared hardware (outer or inner) the number of fireable/running
+   jobs whose chain goes through that level ([nactive2], counted from the ghost record of reservations) is <= its slots *)
+Theorem C10_capacity_slots_stacked : forall locs,
+  (forall l1 l2, In l1 locs -> In l2 locs -> lv_name l1 = lv_name l2 -> l1 = l2) ->
+  (forall l cap, In l locs -> lv_cap l = Some cap -> wfr cap /\ In "/" (mounts cap)) ->
+  forall p q st l,
+  conformant2 locs init (fun _ => []) (p ++ q) -> run init p = Ok st -> In l locs -> lv_cap l = None ->
+  nactive2 st (reservations init (fun _ => []) p) (lv_name l) <= Z.of_N (slots_of l).
+Proof. exact slots_stacked. Qed.
+
 (* hypotheses met: container c0 (4 cores, 8 MB, 10 on "/") stacked on host h0 (16/16/20); schedule, RUNNING twice,
    COMPLETED (du 3 on c0, 1 on h0), COMPLETED again; while the job runs both levels hold its reservation *)
 Example C10_capacity_stacked_hypotheses_met :
@@ -168,4 +178,5 @@ Print Assumptions C10_valid_slots.
 Print Assumptions C10_capacity.
 Print Assumptions C10_capacity_slots.
 Print Assumptions C10_capacity_stacked.
+Print Assumptions C10_capacity_slots_stacked.
 Print Assumptions C10_shared_inner_refuted.
